@@ -361,7 +361,7 @@ def scripted(ctx, objdir, fixed):
     rng = ctx.rng
     impl = Impl(ctx, objdir)
     cases = [dict(WITNESS)]
-    n = ctx.n(200, 3000)
+    n = ctx.n(200, 2000)
     for i in range(n):
         # mixed -F/-N sets (where the defect class lives) only in a part of the cases; Coq decides exactly
         # (nobad) which well-formed cases are inside the defect class
@@ -450,8 +450,9 @@ def common_meta(ctx, fixed):
         "CPython 3.11 profile-event discipline (call/return, c_call/c_return|c_exception) = the forests of the theorems",
     ]
     ctx.assume = [
-        "well-formed event streams (CPython emits a return for every call, also on exceptions, and one call/return pair per "
-        "generator resume); generator.throw()/close() on a suspended generator is outside (CPython 3.11 emits no call event)",
+        "well-formed event streams for the theorems: CPython emits a return for every call (also on exceptions), one "
+        "call/return pair per generator resume (also for close()/throw(), observed on 3.11.7), c_return or c_exception for "
+        "every c_call; frames entered before sys.setprofile() (runpy) are outside - see C19_exit_by_exception_refuted",
         "single thread (libcall_count and filter_state are process-global by design)",
         "counters do not overflow int (fewer than 2^31 nested calls)",
         "filter patterns within the modelled ERE subset (^, $, '.', literals) or plain names; UFTRACE_PATTERN unset",
